@@ -3,10 +3,12 @@ from . import resources_common as rc
 from ..adapters.resources import FACETS_TREE
 
 LENIENT = [
-    'C11: a node that is still held by a map is assigned again only in one controlled way: a direct child of a staging '
-    'map (root-level, outside the main tree) is moved into the main tree; its back-links follow the latest assignment '
-    'and the superseded place in the staging map is exempt from the back-link demand.  No node is ever twice inside '
-    'one tree; assignments that would create a cycle are not generated',
+    'C11: a node that is still held by a map is assigned again only in two controlled ways: (moved) a direct child of '
+    'a staging map (root-level, outside the main tree) is moved into the main tree; its back-links follow the latest '
+    'assignment and the superseded place in the staging map is exempt from the back-link demand; (again) it is stored '
+    'once more under the path where it is already - nothing changes, its back-links stay - or below a key part that '
+    'evicts it from where it was.  No node is ever twice inside one tree; assignments that would create a cycle are '
+    'not generated',
     'C11: back-links of nodes no map holds any more (replaced, popped, shadowed at the time of a clear) are not compared',
     'C11: m[a][b] through a handle in the middle may fail with any exception class; only [] on the map itself '
     'must raise KeyError',
@@ -23,9 +25,15 @@ def _configs(thorough):
         'c11_tree': (rc.consts(maps=3, handles=3 if thorough else 2, depth=2, ops='Ops_Tree'), 3 if thorough else 2),
         # composite keys of depth 3 over four maps: leading parts that exist (explicit or implicit) followed by parts
         # that have to be created, one or two implicit maps per call
-        'c11_deep': (rc.consts(maps=4, handles=1, depth=3, ops=SET_CLEAR, builders=b01), 3 if thorough else 2),
+        # ... and resources that are in the tree stored again where they are (through plain and composite keys)
+        'c11_deep': (rc.consts(maps=4, handles=1, depth=3, ops=SET_CLEAR, builders=b01, again=True), 3 if thorough else 2),
         # resources moved from a staging map into the main tree, either map cleared afterwards
-        'c11_staging': (rc.consts(maps=3, handles=2, depth=2, ops=SET_CLEAR, staging=True, builders=b01), 3 if thorough else 2),
+        'c11_staging': (rc.consts(maps=3, handles=2, depth=2, ops=SET_CLEAR, staging=True, again=thorough, builders=b01),
+                        3 if thorough else 2),
+        # handles and maps stored again where they are in layered maps (a handle found in a deeper layer is written to
+        # the first one), cleared, layered again
+        'c11_again': (rc.consts(maps=3, handles=2, depth=2, ops='Ops_Tree', again=True, builders=['m0', 'm1'] if thorough else ['m0']),
+                      3 if thorough else 2),
     }
     if thorough:
         cfgs['c11_deep_layers'] = (rc.consts(maps=3, handles=2, depth=3, ops='Ops_Tree'), 3)
